@@ -332,7 +332,9 @@ def seq_cases(draw):
         dims = [dims[0]] * (n + 1)
     return {"dims": dims, "acts": acts, "seed": draw(st.integers(0, 2 ** 31 - 1)), "b": b,
             "x": draw(gen.grid_away_from_zero([b, dims[0]])), "g": draw(gen.upstream()),
-            "order": draw(st.lists(st.integers(0, 7), min_size=2, max_size=6)) if repeat else None}
+            "order": draw(st.lists(st.integers(0, 7), min_size=2, max_size=6)) if repeat else None,
+            # one stage swapped for another module of the same signature after a first call (it keeps its slot)
+            "replace": draw(st.one_of(st.none(), st.tuples(st.integers(0, 11), st.sampled_from(["tanh", "relu", "sigmoid"]))))}
 
 
 def check_seq(c, rec):
@@ -348,11 +350,27 @@ def check_seq(c, rec):
         rec.tag("repeated_instances" if len(set(map(id, layers))) < len(layers) else "distinct_instances")
     seq = nn.Sequential(*layers)
     x = gen.arr(c["x"], [c["b"], c["dims"][0]], np.float32)
+    if c.get("replace"):
+        pos = c["replace"][0] % len(layers)
+        seq(Tensor(x.copy()))
+        old_l = layers[pos]
+        if isinstance(old_l, nn.Linear):
+            new_l = nn.Linear(old_l.weight.shape[1], old_l.weight.shape[0])
+        else:
+            new_l = {"tanh": nn.Tanh, "relu": nn.ReLU, "sigmoid": nn.Sigmoid}[c["replace"][1]]()
+        setattr(seq, str(pos), new_l)
+        layers = layers[:pos] + [new_l] + layers[pos + 1:]
+        rec.tag("stage_replaced_after_a_call")
     xa, xb = Tensor(x.copy(), requires_grad=True), Tensor(x.copy(), requires_grad=True)
-    oa = seq(xa)
     ob = xb
     for l in layers:
         ob = l(ob)
+    try:
+        oa = seq(xa)
+    except Exception as e:  # noqa: BLE001 - the manual composition of the same stages just succeeded
+        raise Violation("sequential_output", f"Sequential(f,g,...)(x) raised {type(e).__name__}: {e} where ...g(f(x)) is "
+                                             f"defined; layers={[type(l).__name__ for l in layers]} order={c.get('order')} "
+                                             f"replace={c.get('replace')}")
     if oa.shape != ob.shape or not np.array_equal(oa.data, ob.data):
         raise Violation("sequential_output", f"Sequential(f,g,...)(x) differs from ...g(f(x)); layers="
                                              f"{[type(l).__name__ for l in layers]} order={c.get('order')}")
